@@ -1342,7 +1342,9 @@ fn judge_c04(case: &Sexp, result: &Sexp) -> Option<Failure> {
             Some("abort") => {
                 let tail = result.args().get(1).map(|x| x.as_atom().to_string()).unwrap_or_default();
                 let status = result.args()[0].as_atom().to_string();
-                if tail.contains("overflowed its stack") || status.contains("SIGSEGV") || status.contains("SIGABRT") && tail.contains("stack overflow") {
+                // (a worker that overflows its stack dies with SIGABRT / SIGSEGV; its last words "has overflowed its stack"
+                //  do not always reach the captured tail, so beyond depth 256 a silent abort of a nesting probe counts as one)
+                if tail.contains("overflowed its stack") || status.contains("SIGSEGV") || status.contains("SIGABRT") && (tail.contains("stack overflow") || depth_cls == " depth>256" && tail.trim().is_empty()) {
                     let what = if case.head() == Some("nest") { format!("stack overflow: {} depth {} {} {}", a[0].as_atom(), a[1].as_atom(), a[2].as_atom(), a[3].as_atom()) } else { format!("stack overflow: {result}") };
                     // beyond depth 256 the findings are grouped by construct family
                     let family = if depth_cls != " depth>256" { kind.clone() }
